@@ -272,6 +272,15 @@ func (e *env) runStep(hs *historyState, st *step, f *faultPlan, md *model) strin
 		r.Violation("stored-record-unreadable", serr.Error(), e.witness(hs, prev, cur, nil))
 		return "x"
 	}
+	return e.judge(hs, st, f, md, prev, cur, stored, orphanW, preRegions, writes)
+}
+
+// judge evaluates the oracles on two successive observations prev -> cur around the command st.
+// stored == nil means "an intermediate observation": the stored-vs-served comparison is left to
+// the final one.
+func (e *env) judge(hs *historyState, st *step, f *faultPlan, md *model, prev, cur, stored snap, orphanW map[uint64]bool,
+	preRegions map[uint64]int, writes []kvx.Event) string {
+	r := e.r
 	ok := st.Err == "" && st.PbErr == "" && st.Panic == ""
 	wit := func() interface{} { return e.witness(hs, prev, cur, stored) }
 
@@ -554,7 +563,13 @@ func (e *env) runStep(hs *historyState, st *step, f *faultPlan, md *model) strin
 	if st.Injected != nil {
 		after = "bystander-of-faulted-" + st.Cmd
 	}
+	if st.Cmd == raceTag {
+		after = raceTag
+	}
 	for id, c := range cur {
+		if stored == nil {
+			break
+		}
 		s := stored[id]
 		if md.dirtyMeta[id] {
 			r.Count("compare_skipped_after_fault", 1)
